@@ -70,6 +70,11 @@ func makeURLKey(u *url.URL) string {
 	}
 	// RFC 3986 §6.2.2.1: Host is lowercased.
 	hostPort := strings.ToLower(host)
+	if strings.Contains(hostPort, ":") {
+		// IPv6 literal: keep the brackets, otherwise "[::1]:8080" and
+		// "[::1:8080]" would share a key.
+		hostPort = "[" + hostPort + "]"
+	}
 
 	// RFC 3986 §6.2.3: Only include port if it is non-default for the scheme.
 	if port != "" && port != defaultP {
